@@ -5,6 +5,7 @@ import (
 	"errors"
 	"io"
 	"math"
+	"sync"
 
 	"github.com/cloudwego/gopkg/bufiox"
 	"github.com/cloudwego/gopkg/protocol/thrift"
@@ -520,6 +521,8 @@ func c01Run(in V) V {
 		br := c01BR(kinds, data[prelen:])
 		sr := c01SR(kinds, c01Reader(a[4], data), prelen)
 		return Ls(br, sr)
+	case 3:
+		return c01Sweep(uint32(AsU64(a[1])), AsU64(a[2]))
 	case 2:
 		it := c01ParseItem(a[1])
 		buf := Pat(AsInt(a[3]), AsInt(a[2]))
@@ -534,6 +537,83 @@ func c01Run(in V) V {
 		}()
 	}
 	panic("c01: bad mode")
+}
+
+// i32 range sweep: every value of [lo, lo+n) (as the int32 with that bit pattern) through the
+// in-place, append and stream writers and the buffer and stream readers, against
+// encoding/binary; returns the number of disagreements and a few (value bytes) samples that the
+// model checks against enc.
+func c01Sweep(lo uint32, n uint64) V {
+	const chunk = 4096
+	nchunks := int((n + chunk - 1) / chunk)
+	workers := 8
+	bad := make([]uint64, workers)
+	var wg sync.WaitGroup
+	for w := 0; w < workers; w++ {
+		wg.Add(1)
+		go func(w int) {
+			defer wg.Done()
+			ref := make([]byte, 0, chunk*4)
+			four := make([]byte, 4)
+			for c := w; c < nchunks; c += workers {
+				start := uint64(c) * chunk
+				cnt := uint64(chunk)
+				if start+cnt > n {
+					cnt = n - start
+				}
+				ref = ref[:0]
+				var app []byte
+				var out []byte
+				bw := bufiox.NewBytesWriter(&out)
+				sw := thrift.NewBufferWriter(bw)
+				for i := uint64(0); i < cnt; i++ {
+					u := lo + uint32(start+i)
+					v := int32(u)
+					ref = binary.BigEndian.AppendUint32(ref, u)
+					if thrift.Binary.WriteI32(four, v) != 4 || binary.BigEndian.Uint32(four) != u {
+						bad[w]++
+					}
+					app = thrift.Binary.AppendI32(app, v)
+					if sw.WriteI32(v) != nil {
+						bad[w]++
+					}
+				}
+				if bw.Flush() != nil || string(out) != string(ref) || string(app) != string(ref) {
+					bad[w]++
+				}
+				sr := thrift.NewBufferReader(bufiox.NewBytesReader(ref))
+				for i := uint64(0); i < cnt; i++ {
+					u := lo + uint32(start+i)
+					v, l, err := thrift.Binary.ReadI32(ref[i*4:])
+					if err != nil || l != 4 || v != int32(u) {
+						bad[w]++
+					}
+					v2, err2 := sr.ReadI32()
+					if err2 != nil || v2 != int32(u) {
+						bad[w]++
+					}
+				}
+				if sr.Readn() != int64(cnt*4) {
+					bad[w]++
+				}
+				sw.Recycle()
+				sr.Recycle()
+			}
+		}(w)
+	}
+	wg.Wait()
+	total := uint64(0)
+	for _, b := range bad {
+		total += b
+	}
+	var samples VL
+	for _, off := range []uint64{0, 1, n / 3, n / 2, n - 2, n - 1} {
+		if off < n {
+			v := int32(lo + uint32(off))
+			samples = append(samples, Ls(I64(int64(v)), Bs(thrift.Binary.AppendI32(nil, v))))
+		}
+	}
+	return Ls(U64(total), samples)
 }
 
 // ---------- independent encoder (generator side only: truncated / malformed inputs) ----------
@@ -905,6 +985,16 @@ func c01Gen(g *Gen) {
 		n := len(c01Enc(c01ParseItem(it)))
 		for bl := 0; bl <= n+2; bl++ {
 			g.Add("inplace-fit", Ls(I(2), it, I(bl), I(bl*3+1)))
+		}
+	}
+	// 9. i32 range sweeps inside the harness (thorough: all 2^32 values; quick: the sign / carry zones)
+	if g.Thor {
+		for hi := 0; hi < 256; hi++ {
+			g.Add("i32-sweep", Ls(I(3), U64(uint64(hi)<<24), U64(1<<24)))
+		}
+	} else {
+		for _, lo := range []uint64{0, 0x7fff8000, 0x80000000 - 1<<15, 0xffff0000, 0x00ff8000, 0xfffe0000 + 1<<15} {
+			g.Add("i32-sweep", Ls(I(3), U64(lo), U64(1<<16)))
 		}
 	}
 	g.R.Shuffle(len(g.cases), func(i, j int) { g.cases[i], g.cases[j] = g.cases[j], g.cases[i] })
